@@ -47,6 +47,24 @@ def font_record(case):
     }
     try:
         via = case.get("via", "static")
+        if via == "static" and case.get("ttInstr"):
+            # TrueType glyph programs (public.truetype.instructions): their "id" is the hash of the compiled glyph, so the
+            # font is compiled once without them to learn the hashes (the way an editor stores them), then with them
+            from functools import partial
+
+            from fontTools.misc.fixedTools import floatToFixedToFloat
+            from fontTools.pens.hashPointPen import HashPointPen
+            from fontTools.pens.roundingPen import RoundingPointPen
+
+            probe = fn(absfont.build_font(ufo, lib), **kwargs)
+            for name, nbytes in case["ttInstr"].items():
+                if name not in probe["glyf"].glyphs and name not in probe.getGlyphOrder():
+                    continue
+                hp = HashPointPen(probe["hmtx"][name][0], probe.getGlyphSet())
+                probe["glyf"][name].drawPoints(RoundingPointPen(hp, transformRoundFunc=partial(floatToFixedToFloat, precisionBits=14)), probe["glyf"])
+                font[name].lib["public.truetype.instructions"] = {"formatVersion": "1", "id": hp.hash,
+                                                                  "assembly": "\n".join(["SVTCA[0]"] * nbytes)}
+            rec["ttInstr"] = dict(case["ttInstr"])
         if via == "static":
             otf = fn(font, **kwargs)
         else:
@@ -144,6 +162,36 @@ def font_record(case):
     hd = f2["head"]
     ret["head"] = {k: getattr(hd, k) for k in ("xMin", "yMin", "xMax", "yMax")}
     ret["maxp"] = {"numGlyphs": f2["maxp"].numGlyphs}
+    if "glyf" in f2:
+        # every glyph-derived maxp count next to the same quantity computed from the stored glyph data
+        mp, glyf = f2["maxp"], f2["glyf"]
+        stored = {"maxPoints": 0, "maxContours": 0, "maxCompositePoints": 0, "maxCompositeContours": 0, "maxComponentElements": 0,
+                  "maxComponentDepth": 0, "maxSizeOfInstructions": 0}
+
+        def depth(n):
+            g = glyf[n]
+            return 0 if not g.isComposite() else 1 + max(depth(c.glyphName) for c in g.components)
+
+        for n in order:
+            g = glyf[n]
+            if g.numberOfContours == 0:
+                continue
+            coords, ends, _ = g.getCoordinates(glyf)
+            if g.isComposite():
+                stored["maxCompositePoints"] = max(stored["maxCompositePoints"], len(coords))
+                stored["maxCompositeContours"] = max(stored["maxCompositeContours"], len(ends))
+                stored["maxComponentElements"] = max(stored["maxComponentElements"], len(g.components))
+                stored["maxComponentDepth"] = max(stored["maxComponentDepth"], depth(n))
+            else:
+                stored["maxPoints"] = max(stored["maxPoints"], len(coords))
+                stored["maxContours"] = max(stored["maxContours"], len(ends))
+            if hasattr(g, "program") and g.program:
+                stored["maxSizeOfInstructions"] = max(stored["maxSizeOfInstructions"], len(g.program.getBytecode()))
+        ret["maxpStored"] = stored
+        ret["maxpTable"] = {k: getattr(mp, k) for k in stored}
+        if "ttInstr" in rec:
+            ret["programs"] = {n: (len(glyf[n].program.getBytecode()) if hasattr(glyf[n], "program") and glyf[n].program else 0)
+                               for n in order if n in rec["ttInstr"]}
     os2 = f2["OS/2"]
     ret["os2"] = {"first": os2.usFirstCharIndex, "last": os2.usLastCharIndex, "typoAscender": os2.sTypoAscender}
     if "glyf" in f2:
